@@ -3,6 +3,7 @@ package checks
 import (
 	"bytes"
 	"context"
+	"encoding/hex"
 	"fmt"
 	"io"
 	"reflect"
@@ -68,6 +69,7 @@ type c20Shared struct {
 	schema       tschema.Schema
 	ts           *schema.TypeSystem
 	bproto       schema.TypedPrototype
+	convNode     datamodel.Node // a bound value with a named converter: two schema types on one Go type
 	tview        val.V
 	rview        val.V
 	gdProto      datamodel.NodePrototype
@@ -87,7 +89,7 @@ type C20Named struct {
 	L []string
 }
 
-const c20NumOps = 18
+const c20NumOps = 19
 
 func c20Setup() (*c20Shared, error) {
 	c20Once.Do(func() {
@@ -144,6 +146,31 @@ func c20Setup() (*c20Shared, error) {
 		}
 		s.ts = ts
 		s.bproto = bindnode.Prototype(nil, ts.TypeByName("T3"))
+		// two schema types bound to the Go type string, one of them (HexString) with a converter registered under
+		// its name: the value is wrapped once and shared
+		{
+			cts := schema.TypeSystem{}
+			cts.Init()
+			cts.Accumulate(schema.SpawnString("String"))
+			cts.Accumulate(schema.SpawnString("HexString"))
+			cts.Accumulate(schema.SpawnStruct("Conv", []schema.StructField{
+				schema.SpawnStructField("hex", "HexString", false, false),
+				schema.SpawnStructField("plain", "String", false, false),
+				schema.SpawnStructField("hex2", "HexString", false, false),
+			}, schema.SpawnStructRepresentationMap(nil)))
+			if errs := cts.ValidateGraph(); len(errs) > 0 {
+				c20Err = fmt.Errorf("converter schema: %v", errs)
+				return
+			}
+			opt := bindnode.NamedStringConverter("HexString",
+				func(x string) (interface{}, error) {
+					b, err := hex.DecodeString(x)
+					str := string(b)
+					return &str, err
+				},
+				func(x interface{}) (string, error) { return hex.EncodeToString([]byte(*x.(*string))), nil })
+			s.convNode = bindnode.Wrap(&C20Conv{Hex: "abc", Plain: "abc", Hex2: "xyz"}, cts.TypeByName("Conv"), opt)
+		}
 		tv := tschema.TV{K: "struct", Items: []tschema.TV{
 			{K: "map", Keys: []string{"k", "z"}, Items: []tschema.TV{{K: "union", Member: 0, Items: []tschema.TV{{K: "struct", Items: []tschema.TV{{K: "scalar", V: val.MkInt(7)}, {K: "absent"}}}}}, {K: "null"}}},
 			{K: "null"}, {K: "scalar", V: val.MkBytes([]byte("xyz"))},
@@ -584,6 +611,23 @@ func c20Do(s *c20Shared, op, step, gid int) error {
 				return fmt.Errorf("Wrap of a Go type that needs a converter succeeded without one (alone it is refused): another caller's options leaked")
 			}
 		}
+	case 18: // fields of the shared value bound with a named converter: the converted and the plain one, in a drawn order
+		order := []string{"hex", "plain", "hex2"}
+		want := map[string]string{"hex": "616263", "plain": "abc", "hex2": "78797a"}
+		for i := range order {
+			name := order[(i+step)%3]
+			f, err := s.convNode.LookupByString(name)
+			if err != nil {
+				return err
+			}
+			if str, err := f.AsString(); err != nil || str != want[name] {
+				return fmt.Errorf("field %s of the shared value bound with a named converter reads %q (err %v), want %q", name, str, err, want[name])
+			}
+		}
+		var buf bytes.Buffer
+		if err := dagjson.Encode(s.convNode, &buf); err != nil || buf.String() != `{"hex":"616263","hex2":"78797a","plain":"abc"}` {
+			return fmt.Errorf("dag-json of the shared value bound with a named converter: %s (err %v)", buf.String(), err)
+		}
 	case 15: // compile the shared selector spec again
 		if _, err := selector.CompileSelector(s.specNode); err != nil {
 			return err
@@ -591,6 +635,9 @@ func c20Do(s *c20Shared, op, step, gid int) error {
 	}
 	return nil
 }
+
+// C20Conv is bound to Conv {hex HexString, plain String, hex2 HexString}.
+type C20Conv struct{ Hex, Plain, Hex2 string }
 
 // C20W is bound to the schema type C20W {s String}: its field needs a string converter.
 type C20W struct{ S c20Ident }
@@ -672,7 +719,7 @@ func c20Check(c C20Case, rec *evid.Rec) error {
 
 var c20Part = evid.Part[C20Case]{
 	Prop: "C20", Name: "concurrent", Quick: 150, Thorough: 200000,
-	Rule: "round: 2-24 goroutines each run a drawn sequence of ≤40 read-only operations on objects created once and shared (basicnode / bindnode / generated nodes with their representation views, plain and reader-backed bytes nodes, a compiled selector, a traversal configuration and link system over a read-only store, a type system, bindnode and generated prototypes, the default codec registry): full reads, DeepEqual, Copy, encode, ComputeLink, Load, LoadRaw, WalkAdv, WalkMatching, Get, building from shared prototypes, Wrap/Prototype with explicit and inferred schemas, registry look-ups, schema type methods, selector compilation, binding calls that inference refuses, Wrap of one (Go type, schema type) pair with and without the converter option it needs; built with the race detector, varied GOMAXPROCS and injected Gosched; every result must equal the sequentially computed one; non-trivial = ≥2 goroutines performed the same class of operation on the shared objects; sampled schedules, distinct by the operation matrix",
+	Rule: "round: 2-24 goroutines each run a drawn sequence of ≤40 read-only operations on objects created once and shared (basicnode / bindnode / generated nodes with their representation views, plain and reader-backed bytes nodes, a compiled selector, a traversal configuration and link system over a read-only store, a type system, bindnode and generated prototypes, the default codec registry): full reads, DeepEqual, Copy, encode, ComputeLink, Load, LoadRaw, WalkAdv, WalkMatching, Get, building from shared prototypes, Wrap/Prototype with explicit and inferred schemas, registry look-ups, schema type methods, selector compilation, binding calls that inference refuses, Wrap of one (Go type, schema type) pair with and without the converter option it needs, reads and encodes of a shared value bound with a named converter (two schema types on one Go type); built with the race detector, varied GOMAXPROCS and injected Gosched; every result must equal the sequentially computed one; non-trivial = ≥2 goroutines performed the same class of operation on the shared objects; sampled schedules, distinct by the operation matrix",
 	Gen: func(t *rapid.T) C20Case {
 		g := rapid.IntRange(2, 24).Draw(t, "goroutines")
 		c := C20Case{Procs: rapid.SampledFrom([]int{0, 1, 2, 4, 16}).Draw(t, "procs"), Yield: rapid.SliceOfN(rapid.IntRange(0, 39), 0, 8).Draw(t, "yield")}
